@@ -902,6 +902,13 @@ func atomicViolations(stdout, traceFile string) string {
 			dests = append(dests, strings.TrimSpace(strings.TrimPrefix(l, "VERIF-ATOMIC-DEST ")))
 		}
 	}
+	// a temporary directory the caller asked for
+	tmpDir := ""
+	for _, l := range strings.Split(stdout, "\n") {
+		if strings.HasPrefix(l, "VERIF-ATOMIC-TMPDIR ") {
+			tmpDir = strings.TrimSpace(strings.TrimPrefix(l, "VERIF-ATOMIC-TMPDIR "))
+		}
+	}
 	if len(dests) == 0 {
 		return ""
 	}
@@ -970,6 +977,9 @@ func atomicViolations(stdout, traceFile string) string {
 			qs := quotedRe.FindAllStringSubmatch(l, -1)
 			if len(qs) >= 2 && isDest(qs[1][1]) {
 				st := get(qs[0][1])
+				if tmpDir != "" && filepath.Dir(qs[0][1]) != tmpDir {
+					return "the published file was not prepared in the requested temporary directory: " + l
+				}
 				if st.syncAt < 0 || st.syncAt < st.lastWrite {
 					return "rename onto destination without a successful fsync after the last write: " + l
 				}
